@@ -121,6 +121,21 @@ def run(prop, tier, seed):
                 o['a']['busy'] = [rng.randrange(1, shards), rng.choice([1, 1, 2])]
         tid += 1
         jobs.append((cfg, ops, seed + i, tid))
+    # the total size limit is divided among the shards: file-backed values until every shard is over its share
+    for shards in ((2, 3) if tier == 'quick' else (2, 3, 8)):
+        for policy in (('lrs',) if tier == 'quick' else ('lrs', 'lru', 'lfu')):
+            K = lambda i: [1] + [ord(ch) for ch in 's%03d' % i]
+            ops = []
+            for i in range(24 * shards):
+                ops.append({'op': 'set', 'a': {'k': K(i), 'v': 200000 + (40 + 8 * (i % 3)) * 100 + (i % 90), 'ttl': [], 'tag': 0}, 'form': 0})
+                if i % 6 == 0:
+                    ops.append({'op': 'get', 'a': {'k': K(rng.randrange(i + 1)), 'fx': 0, 'ft': 0, 'mk': 'miss'}, 'form': 0})
+                if i % 5 == 0:
+                    ops.append({'op': 'tick', 'a': {'n': 1}, 'form': 0})
+            ops += [{'op': 'volume', 'a': {}, 'form': 0}, {'op': 'cull', 'a': {}, 'form': 0}, {'op': 'len', 'a': {}, 'form': 0}]
+            cfg = dict(policy=policy, cull=rng.choice([2, 10]), limit=shards * 320 * 1024, stats=False, shards=shards, min_file_size=2 ** 15)
+            tid += 1
+            jobs.append((cfg, ops, seed + 8500 + tid, tid))
     # more than one page (100 rows) per shard, the lock taken by another client BETWEEN the pages, repeatedly
     for j in range(2 if tier == 'quick' else 12):
         shards = rng.choice([2, 3])
